@@ -92,8 +92,42 @@ def prepare(tier):
     _schemas(tier)
 
 
+def dependent():
+    """Schemas in which what one rule selects, or what its condition compares with, depends on a node that a cast
+    (its own or another rule's) replaces: part value conditions on a cast sibling, data-path arguments pointing at a
+    cast node.  -> [(schema, [documents])]"""
+    P = T.path
+    PA = lambda *parts: ("$path", P(tuple(("prim", x) for x in parts)))
+    INT, BOOL = CASTS[1], CASTS[0]
+    out = []
+    for cont, bare in (("list", Ls), ("map", M)):
+        a = T.rule(P((bare, ("prim", "id"))), CONDS[1], INT)
+        bs = [T.rule(P(((cont, None, L("Value", "items_contain", id=v), None), ("prim", "debug"))), CONDS[0], BOOL) for v in ("7", 7)]
+        items = [{"id": "7", "debug": "true"}, {"id": "8", "debug": "false"}, {"id": 7, "debug": "TRUE"}, {"id": "x", "debug": "no"}, {"debug": "true"}]
+        docs = [items[:2], items, items[::-1], [items[2]]]
+        if cont == "map":
+            docs = [{("j%d" % i): it for i, it in enumerate(d)} for d in docs]
+        for b in bs:
+            out += [(("schema", (a, b)), docs), (("schema", (b, a)), docs), (("schema", (b,)), docs)]
+    lim_docs = [{"a": "3", "limit": "5"}, {"a": "7", "limit": "5"}, {"a": 3, "limit": "5"}, {"a": "3", "limit": 5}, {"a": "x", "limit": "5"},
+                {"a": "3", "b": "4", "limit": "x"}, {"limit": "5"}]
+    c = T.rule(P((M,)), L("Value", "less_than_or_equal_to", PA("limit")), INT)
+    c2 = T.rule(P((("prim", "a"),)), L("Value", "in_range", lower=0, upper=PA("limit")), INT)
+    lim = T.rule(P((("prim", "limit"),)), CONDS[1], INT)
+    out += [(("schema", (c,)), lim_docs), (("schema", (c2,)), lim_docs), (("schema", (lim, c2)), lim_docs), (("schema", (c2, lim)), lim_docs)]
+    d = T.rule(P((("prim", "a"),)), L("Value", "equal_to", PA("b")), INT)
+    e = T.rule(P((("prim", "b"),)), L("Value", "truthy"), INT)
+    f = T.rule(P((("prim", "a"),)), L("Value", "in_", [PA("b"), PA("m", "x")]), BOOL)
+    ab_docs = [{"a": "3", "b": "3"}, {"a": "3", "b": 3}, {"a": 3, "b": "3"}, {"a": "3", "b": "4"}, {"a": "true", "b": "TRUE", "m": {"x": "false"}},
+               {"a": "false", "b": "x", "m": {"x": "False"}}]
+    g = T.rule(P((("prim", "m"), ("prim", "x"))), CONDS[0], BOOL)
+    out += [(("schema", (d,)), ab_docs), (("schema", (d, e)), ab_docs), (("schema", (e, d)), ab_docs), (("schema", (f,)), ab_docs),
+            (("schema", (f, g)), ab_docs), (("schema", (g, f)), ab_docs)]
+    return out
+
+
 def units(tier):
-    return gen.chunks(len(_schemas(tier)), 12) + [["HOW", how] for how in ("spec", "composed")]
+    return gen.chunks(len(_schemas(tier)), 12) + [["HOW", how] for how in ("spec", "composed")] + [["DEP"]]
 
 
 def two_rule_schemas():
@@ -112,6 +146,12 @@ def run_unit(unit, tier):
         for si, st in enumerate(two_rule_schemas()):
             for di, doc in enumerate(docs):
                 check_case(res, st, doc, key=(unit[1], si, di), how=unit[1])
+        return res
+    if unit[0] == "DEP":
+        for si, (st, docs) in enumerate(dependent()):
+            for di, doc in enumerate(docs):
+                for how in ("api", "spec"):
+                    check_case(res, st, doc, key=("DEP", si, di, how), how=how)
         return res
     ss = _schemas(tier)
     docs = documents()
